@@ -433,3 +433,6 @@ def run(ctx):
     # growth next to C02: the operator objects the expression grammar does not reach (Operators.tla)
     from drivers import operators_common
     operators_common.run(ctx, quick)
+    # growth next to C02: the LIKE comparison of Track.query / getTracks / time patterns (LikeMatch.tla)
+    from drivers import likematch_common
+    likematch_common.run(ctx, quick)
